@@ -121,7 +121,7 @@ def run(ctx):
     files = sorted(os.path.join(ctx.tmp, f) for f in os.listdir(ctx.tmp) if re.match(r"c15_trace_\d+\.ndjson$", f))
     files = [f for f in files if os.path.getsize(f) > 0]
     # a JVM start costs more than thousands of trace steps: few, larger TLC runs in the quick tier
-    nmon = 4 if quick else 16
+    nmon = 8 if quick else 16
     if len(files) > nmon:
         merged = []
         for i in range(nmon):
